@@ -7,7 +7,10 @@ Open Scope Z_scope.
    invocation (EDispatch id nread rc; ids 1000000+j = the j-th 32-byte unit of a body filled with
    "GET /sNNNNN HTTP/1.1\r\nHost:x\r\n\r\n", -1 = any other path), final responses (EResp status
    has-"Connection: close"), and the hijack handler running (EHijack). *)
-Inductive c02case := C02Case (c : cfg) (rs : list req) (impl : list event).
+Inductive c02case :=
+| C02Case (c : cfg) (rs : list req) (impl : list event)
+(* several connections served one after the other by the same process (the requestStream pool is shared) *)
+| C02Multi (c : cfg) (conns : list (list req)) (impls : list (list event)).
 
 Definition rc_eqb (a b : rc) : bool :=
   match a, b with RcOk, RcOk | RcEof, RcEof | RcErr, RcErr => true | _, _ => false end.
@@ -37,6 +40,12 @@ Definition predicted_smuggle (c : cfg) (rs : list req) (id rel : Z) : option Z :
       match r_fr r, r_mp r with
       | FFixed n, None =>
           if (rel mod smuggle_unit =? 0) && (rel + smuggle_unit <=? n) && negb (truncated r) then Some (smuggle_base + rel / smuggle_unit) else None
+      | FChunked _ zl tl, _ =>
+          (* the crafted alternative end of a chunked body is followed by a whole unit *)
+          match r_alt r with
+          | Some (a, sid) => if (rel =? a + 2 + zl + tl) && negb (truncated r) then Some (smuggle_base + sid) else None
+          | None => None
+          end
       | _, _ => None
       end
   | None => None
@@ -55,8 +64,28 @@ Fixpoint cmp (c : cfg) (rs : list req) (m impl : list event) : bool :=
 
 Definition model_trace (c : cfg) (rs : list req) : list event := filter visible (serve c rs 0).
 
+Fixpoint cmp_conns (c : cfg) (conns : list (list req)) (ms impls : list (list event)) : bool :=
+  match conns, ms, impls with
+  | [], [], [] => true
+  | rs :: cr, m :: mr, i :: ir => cmp c rs (filter visible m) i && cmp_conns c cr mr ir
+  | _, _, _ => false
+  end.
+
+Fixpoint judge_conns (c : cfg) (conns : list (list req)) (impls : list (list event)) : bool :=
+  match conns, impls with
+  | [], [] => true
+  | rs :: cr, i :: ir => judge c rs i && judge_conns c cr ir
+  | _, _ => false
+  end.
+
 Definition corr_ok (x : c02case) : bool :=
-  match x with C02Case c rs impl => cmp c rs (model_trace c rs) impl end.
+  match x with
+  | C02Case c rs impl => cmp c rs (model_trace c rs) impl
+  | C02Multi c conns impls => cmp_conns c conns (serve_conns releaseRequestStream c conns []) impls
+  end.
 
 Definition prop_ok (x : c02case) : bool :=
-  match x with C02Case c rs impl => judge c rs impl end.
+  match x with
+  | C02Case c rs impl => judge c rs impl
+  | C02Multi c conns impls => judge_conns c conns impls
+  end.
